@@ -6,7 +6,7 @@
   (C12/C13, C15, C18, C20, C04–C06 for the per-sender lists) apply to every schedule; selection results satisfy C01/C02 for
   ANY nonce-sorted single-sender snapshots, whatever happens concurrently; sorted insertion commutes.
 -/
-import SV.FactsProofs
+import SV.FactsProofs.Conc
 import SV.TxCache.SelProofs
 import SV.TxCache.OrderProofs
 import SV.TxCache.ListProofs
